@@ -129,6 +129,8 @@ def run_program(w, sub, api, other=None):
     fp1 = h1[1]
     fps = [s for s in h2 if "heap_cells" in s]
     for n, f in enumerate(fps):
+        if other is not None:
+            break   # the other program's clauses, floats and atoms legitimately remain: answers only
         for c in COUNTERS:
             base = fp1
             if c == "atoms_with_prefix":
@@ -142,12 +144,36 @@ def run_program(w, sub, api, other=None):
                 break
     a1 = h1[2].get("answers")
     a2 = h2[-1].get("answers")
+    if other is not None:
+        # the other program's predicates legitimately exist now: compare this program's own
+        a1, a2 = own_answers(a1, sub), own_answers(a2, sub)
     if a1 != a2:
         v.append(("answers change after reload", {"first": a1, "later": a2}))
     out1 = h1[0].get("o", "") + h1[0].get("e", "")
     if "error" in out1:
         v.append(("load prints an error", out1[:300]))
     return v
+
+
+FEATURE_PREDS = {"static": ["zzvx_s", "zzvx_r"], "dynamic": ["zzvx_d"], "discontiguous": ["zzvx_p", "zzvx_q"],
+                 "multifile": ["zzvx_m"], "op": ["zzvx_o"], "use_module": ["zzvx_u"], "initialization": ["zzvx_i"],
+                 "string": ["zzvx_str"], "float": ["zzvx_f"], "bignum": ["zzvx_b"]}
+
+
+def own_answers(ans, sub):
+    """the probe's entries that belong to the predicates of program `sub`"""
+    try:
+        items = ans[0]["bindings"]["L"]["l"]
+    except Exception:
+        return ans
+    keep = []
+    for i in sub:
+        for pn in FEATURE_PREDS[FEATURES[i][0]]:
+            k = PREDS.index(pn)
+            keep += [items[2 * k], items[2 * k + 1]]
+        if FEATURES[i][0] == "op":
+            keep.append(items[-1])
+    return keep
 
 
 def run_shard(w, shard, tier):
